@@ -82,11 +82,69 @@ theorem mem_ackedSync_downgrade {x : Grp} {l : List Issue} (h : x ∈ ackedSync 
 def AllViews (cfg : Cfg) (d : Disk) (P : MView → Prop) : Prop :=
   ∀ mf, curManifest d = some mf → ∀ k ≤ mf.unsynced.length, ∀ v, viewAt cfg mf k = some v → P v
 
+/-! ## `seqHi` -/
+
+theorem seqHi_eq {s : St} (h : ¬ TrWindow s) : seqHi s = s.seq := by
+  unfold seqHi
+  unfold TrWindow at h
+  cases hj : s.job with
+  | none => rfl
+  | some j =>
+    rw [hj] at h
+    simp only [Holds] at h
+    simp only
+    split
+    · rename_i hb
+      unfold sqCap
+      rw [if_neg (fun hk => h ⟨hk, hb⟩)]
+    · rfl
+
+theorem not_trWindow_of_nojob {s : St} (h : s.job = none) : ¬ TrWindow s := by
+  unfold TrWindow; rw [h]; exact id
+
+theorem not_trWindow_of_kind {s : St} {j : Job} (hj : s.job = some j) (hk : j.kind ≠ .tr) : ¬ TrWindow s := by
+  unfold TrWindow; rw [hj]; exact fun h => hk h.1
+
+theorem not_trWindow_of_bc {s : St} {j : Job} (hj : s.job = some j) (hb : j.pc.beforeCommit = true) :
+    ¬ TrWindow s := by
+  unfold TrWindow; rw [hj]
+  intro h
+  have h2 : j.pc.beforeCommit = false := h.2
+  rw [hb] at h2; cases h2
+
+theorem seqHi_le_of_not_window {s s' : St} (h : ¬ TrWindow s) (h' : ¬ TrWindow s') (hq : s.seq ≤ s'.seq) :
+    seqHi s ≤ seqHi s' := by
+  rw [seqHi_eq h, seqHi_eq h']; exact hq
+
+/-- a step of the job that keeps kind, `tr` and `db.seq`, and does not go back behind the commit -/
+theorem seqHi_le_of_job {s s' : St} {j j' : Job} (hj : s.job = some j) (hj' : s'.job = some j')
+    (htr : s'.tr = s.tr) (hseq : s'.seq = s.seq) (hk : j'.kind = j.kind)
+    (hpc : j'.pc.beforeCommit = true → j.pc.beforeCommit = true) (hcap : s.seq ≤ sqCap s j) :
+    seqHi s ≤ seqHi s' := by
+  have hc : sqCap s' j' = sqCap s j := by unfold sqCap; rw [hk, htr, hseq]
+  unfold seqHi
+  rw [hj, hj']
+  simp only
+  cases hb' : j'.pc.beforeCommit with
+  | true =>
+    rw [hpc hb']
+    simp only [Bool.true_eq_false, if_false, hseq, Nat.le_refl]
+  | false =>
+    simp only [if_true]
+    rw [hc]
+    split
+    · exact Nat.le_refl _
+    · exact hcap
+
+theorem seqHi_post {s : St} {j : Job} (hj : s.job = some j) (hb : j.pc.beforeCommit = false) :
+    seqHi s = sqCap s j := by
+  unfold seqHi; rw [hj]; simp only [hb, if_true]
+
 theorem ViewBounds.all {cfg : Cfg} {s : St} {d : Disk} (h : ViewBounds cfg s d) :
-    AllViews cfg d fun v => v.sq ≤ s.seq ∧ v.nf ≤ s.nextFile ∧ (s.phase = .running → v.jn ≤ s.jcur) := by
+    AllViews cfg d fun v => v.sq ≤ seqHi s ∧ v.nf ≤ s.nextFile ∧ (s.phase = .running → v.jn ≤ s.jcur) := by
   intro mf hc k hk v hv
   have h1 := holds_some h hc k hk
-  exact holds_some (P := fun v => v.sq ≤ s.seq ∧ v.nf ≤ s.nextFile ∧ (s.phase = .running → v.jn ≤ s.jcur)) h1 hv
+  exact holds_some (P := fun v => v.sq ≤ seqHi s ∧ v.nf ≤ s.nextFile ∧ (s.phase = .running → v.jn ≤ s.jcur)) h1 hv
 
 theorem DiskOK.allViews {cfg : Cfg} {d : Disk} {must issued : List Grp} (h : DiskOK cfg d must issued) :
     AllViews cfg d fun v => ViewOK d must issued v := by
@@ -100,9 +158,36 @@ theorem DiskOK.allViews {cfg : Cfg} {d : Disk} {must issued : List Grp} (h : Dis
   cases hv'
   exact hok
 
+/-- more groups must survive, provided every admissible view already covers the new ones -/
+theorem DiskOK.mono_cover {cfg : Cfg} {d : Disk} {must must' issued issued' : List Grp}
+    (h : DiskOK cfg d must issued)
+    (hm : ∀ g ∈ must', g ∈ must ∨
+      AllViews cfg d fun v => g ∈ liveGrps d v ∨ ∃ p ∈ relJournals d v.jn, g ∈ p.2.synced)
+    (hi : ∀ g ∈ issued, g ∈ issued') : DiskOK cfg d must' issued' := by
+  obtain ⟨a, b, c, hr⟩ := h
+  refine ⟨a, b, c, ?_⟩
+  rw [holds_iff] at hr ⊢
+  obtain ⟨mf, hmf, hr⟩ := hr
+  refine ⟨mf, hmf, ?_⟩
+  rw [holds_iff] at hr ⊢
+  obtain ⟨v0, hv0, hrange, hasc, hord⟩ := hr
+  refine ⟨v0, hv0, ?_, hasc, hord⟩
+  intro k hk
+  have := hrange k hk
+  rw [holds_iff] at this ⊢
+  obtain ⟨v, hv, hok, hmono⟩ := this
+  refine ⟨v, hv, ⟨hok.tables, fun g hg => ?_, hok.tdisj, fun p hp g hg => ?_, hok.tj, fun g hg => ?_, hok.jnf⟩, hmono⟩
+  · obtain ⟨x, y, z⟩ := hok.tseq g hg
+    exact ⟨x, hi g y, z⟩
+  · obtain ⟨x, y⟩ := hok.jseq p hp g hg
+    exact ⟨x, hi g y⟩
+  · rcases hm g hg with h1 | h1
+    · exact hok.cover g h1
+    · exact h1 mf hmf k hk v hv
+
 /-- rebuilding `ViewBounds` when the manifest has not changed -/
 theorem ViewBounds.of_same {cfg : Cfg} {s s' : St} {d d' : Disk} (h : ViewBounds cfg s d)
-    (hc : curManifest d' = curManifest d) (hseq : s.seq ≤ s'.seq) (hnf : s.nextFile ≤ s'.nextFile)
+    (hc : curManifest d' = curManifest d) (hseq : seqHi s ≤ seqHi s') (hnf : s.nextFile ≤ s'.nextFile)
     (hj : s'.phase = .running → s.phase = .running ∧ s.jcur ≤ s'.jcur) : ViewBounds cfg s' d' := by
   unfold ViewBounds at h ⊢
   rw [hc]
